@@ -56,10 +56,13 @@ WORDS = {'a': 'foo', 'b': '12', 'c': '中', 'd': 'bar'}
 
 def trie_cases(states, rnd):
     out = []
-    for st in states:
-        phrases = [' '.join(WORDS[t] for t in e['toks']) for e in st['dict']]
+    for n, st in enumerate(states):
+        # white space inside a phrase is not significant: every fourth dictionary is written with wide gaps (its phrases are
+        # then longer in characters than a query that contains them)
+        wide = n % 4 == 3
+        phrases = [('   ' if wide else ' ').join(WORDS[t] for t in e['toks']) for e in st['dict']]
         ids = [e['id'] for e in st['dict']]
-        q = ('  ' if rnd.random() < 0.3 else ' ').join(WORDS[t] for t in st['query'])
+        q = ('  ' if rnd.random() < 0.3 and not wide else ' ').join(WORDS[t] for t in st['query'])
         form = rnd.choice(['ids', 'dict', 'ids'])
         out.append({'api': 'match', 'tokenizer': rnd.choice(['simple', 'nwu']), 'form': form,
                     'phrases': [[ord(c) for c in p] for p in phrases], 'ids': ids, 'query': [ord(c) for c in q]})
